@@ -3,22 +3,35 @@ package main
 import (
 	"fmt"
 	"os"
+	"strconv"
 
 	"github.com/frankkopp/FrankyGo/internal/config"
-	"github.com/frankkopp/FrankyGo/internal/evaluator"
 	"github.com/frankkopp/FrankyGo/internal/position"
-	"github.com/frankkopp/FrankyGo/internal/types"
-	rc "github.com/frankkopp/FrankyGo/verifh/refchess"
+	"github.com/frankkopp/FrankyGo/internal/search"
 )
 
 func main() {
 	config.LogLevel = 0
-	fen := os.Args[1]
-	b := rc.MustFEN(fen)
-	for _, f := range []string{b.FEN(), b.Mirror().FEN()} {
-		p, _ := position.NewPositionFen(f)
-		e := evaluator.NewEvaluator()
-		fmt.Println(f)
-		fmt.Println(" gp", p.GamePhase(), "mat", p.Material(types.White), p.Material(types.Black), "mid", p.PsqMidValue(types.White), p.PsqMidValue(types.Black), "end", p.PsqEndValue(types.White), p.PsqEndValue(types.Black), "eval", e.Evaluate(p), "insuff", p.HasInsufficientMaterial())
+	config.SearchLogLevel = 0
+	config.Settings.Search.UseBook = false
+	config.Settings.Search.TTSize = 4
+	s := search.NewSearch()
+	for i := 1; i+1 < len(os.Args); i += 2 {
+		fen := os.Args[i]
+		d, _ := strconv.Atoi(os.Args[i+1])
+		p, err := position.NewPositionFen(fen)
+		if err != nil {
+			fmt.Println(err)
+			return
+		}
+		if i == 1 {
+			config.Settings.Search.UseRazoring = false
+		} else {
+			config.Settings.Search.UseRazoring = true
+		}
+		s.StartSearch(*p, search.Limits{Depth: d, Nodes: 150000})
+		s.WaitWhileSearching()
+		r := s.LastSearchResult()
+		fmt.Println(r.String())
 	}
 }
